@@ -58,6 +58,9 @@ func c10configs(tier string) []hs.Config {
 			}
 		}
 	}
+	// the certificate may reach crypto/tls in three ways; the connection "can provide" TLS in all of them
+	add(hs.Config{Comp: comps[0], Enc: []string{"tls"}, Schemes: schemes[0], TLSCapable: true, AuthSource: "tape", Tape: []string{"member"}, Register: "echo", TLSVia: "getconfig"})
+	add(hs.Config{Comp: comps[0], Enc: []string{"tls"}, Schemes: schemes[1], TLSCapable: true, AuthSource: "tape", Tape: []string{"member"}, Register: "echo", TLSVia: "getcert"})
 	// controls (precondition false): recorded only
 	add(hs.Config{Comp: comps[0], Enc: []string{"none", "tls"}, Schemes: schemes[0], TLSCapable: true, AuthSource: "tape", Tape: []string{"member"}, Register: "echo"})
 	add(hs.Config{Comp: comps[0], Enc: []string{"tls"}, Schemes: schemes[0], TLSCapable: false, AuthSource: "tape", Tape: []string{"member"}, Register: "echo"})
